@@ -261,6 +261,11 @@ def run_scenario(sc):
                 obs['pflow'] = extract_pflow(S.trace, sc, obs.get('ops', []))
             except Exception as e:  # noqa
                 obs['pflow_error'] = repr(e)
+        if sc.get('want_ffail'):
+            try:
+                obs['ffail'] = extract_ffail(S.trace)
+            except Exception as e:  # noqa
+                obs['ffail_error'] = repr(e)
         if sc.get('want_shutdown'):
             try:
                 obs['shutdown'] = extract_shutdown(S.trace)
@@ -473,6 +478,166 @@ def extract_pflow(trace, sc, ops_obs):
         elif kind == 'start' and role == 'restart_handler' and isinstance(rec[4], str) and rec[4].startswith('Worker-') and not stopped:
             toks.append('R:%s' % rec[4].split('-')[1])
     return toks
+
+
+def extract_ffail(trace):
+    """who reported a failing call and what the caller then fetched, in the vocabulary of Model/FirstFailure.lean: one record
+    {'sigs': ['w:4', …], 'jobs': [4, …], 'ev': [token, …]} per period between two resets of the exception flag in which somebody wrote
+    the job-id slot.  Job ids are shifted so that MAIN_PROCESS, INIT_FUNC, EXIT_FUNC are 0, 1, 2.  Tokens: L:i:b (party i looked at the
+    flag and saw b), W:i (wrote the slot), F:i (raised the flag), Q:i (queued its failure), P:i / A:i (decided to store it itself /
+    under every other job), H:i (the results handler took up i's queued failure), S:i:j (i's failure was written under job j),
+    MS / MR:j / MX:i (the caller saw the flag / read job id j / fetched the exception produced by i)."""
+    def mj(j):
+        return {-1: 0, -2: 1, -3: 2}.get(j, j + 3)
+
+    def kind_of(role):
+        if role.startswith('Worker-'):
+            return 'w'
+        if role == 'timeout_handler':
+            return 't'
+        if role == 'unexpected_death_handler':
+            return 'd'
+        return 'c'
+    episodes = []
+
+    def new():
+        return {'sigs': [], 'jobs': set(), 'toks': [], 'last_look': {}, 'since_look': {}, 'cur': {}, 'stored': [], 'queued': {}, 'hand': None, 'main_look': None,
+                'hgroup': None, 'hwho': None}
+    ep = new()
+
+    def fmt(tok):
+        # a token is a string, or a tuple with holders {'i': party} that are filled in when the party becomes known
+        if isinstance(tok, str):
+            return tok
+        parts = []
+        for x in tok:
+            if isinstance(x, dict):
+                parts.append(str(x['i'] if x.get('i') is not None else 999))
+            else:
+                parts.append(str(x))
+        return ':'.join(parts)
+
+    def close(ep):
+        if not ep['sigs']:
+            return
+        out = []
+        for pos, _, tok in sorted(ep['toks'], key=lambda t: (t[0], t[1])):
+            if isinstance(tok, tuple) and tok[0] == 'MX':
+                # the party whose object (by identity) was stored last before the fetch
+                who = None
+                for p2, obj, holder in ep['stored']:
+                    if obj == tok[1] and p2 <= pos:
+                        who = holder
+                tok = ('MX', who if who is not None else {'i': None})
+            out.append(fmt(tok))
+        episodes.append({'sigs': ['%s:%d' % (k, j) for k, j in ep['sigs']], 'jobs': sorted(ep['jobs']), 'ev': out})
+    seq = 0
+    for pos, rec in enumerate(trace):
+        role, kind = str(rec[2]), rec[3]
+        seq += 1
+
+        def emit(tok, at=None):
+            ep['toks'].append((pos if at is None else at, seq, tok))
+
+        def store(holder, job, obj, at=None):
+            ep['stored'].append((pos if at is None else at, obj, holder))
+            emit(('S', holder, mj(job)), at=at)
+            if job >= 0:
+                ep['jobs'].add(mj(job))
+        if kind == 'event.clear' and rec[4] == 'exception_thrown':
+            close(ep)
+            ep = new()
+        elif kind == 'exc.look':
+            ep['last_look'][role] = (pos, bool(rec[4]))
+            ep['since_look'][role] = []
+            if role == 'main' and rec[4]:
+                ep['main_look'] = pos
+        elif kind == 'value.set' and rec[4] == 'exception_job_id':
+            k = kind_of(role)
+            i = len(ep['sigs'])
+            ep['sigs'].append((k, mj(rec[5])))
+            g = {'i': i, 'kind': k, 'flagged': False, 'published': False, 'all': False, 'obj': None, 'holder': {'i': i}}
+            ep['cur'][role] = g
+            if k != 'c':
+                lp, seen = ep['last_look'].get(role, (pos, False))
+                emit('L:%d:%d' % (i, 1 if seen else 0), at=lp)
+            if k == 'd':
+                # what the death handler stored since its look belongs to this report
+                pre = ep['since_look'].get(role, [])
+                if pre:
+                    g['published'] = True
+                    pre[-1][3]['i'] = i
+                    g['holder'] = pre[-1][3]
+            emit('W:%d' % i)
+        elif kind == 'event.set' and rec[4] == 'exception_thrown':
+            g = ep['cur'].get(role)
+            if g is not None and not g['flagged']:
+                g['flagged'] = True
+                emit('F:%d' % g['i'])
+        elif kind == 'q.put' and rec[4] == 'rq' and role.startswith('Worker-'):
+            g = ep['cur'].get(role)
+            item = rec[5]
+            try:
+                failing = any((not r[1]) and not isinstance(r[2], str) for r in item[1])
+            except Exception:
+                failing = False
+            if g is not None and g['flagged'] and failing and not g.get('queued'):
+                g['queued'] = True
+                ep['queued'].setdefault(item[0], []).append(g['i'])
+                emit('Q:%d' % g['i'])
+        elif kind == 'q.get' and rec[4] == 'rq' and role == 'results_handler':
+            try:
+                ep['hand'] = rec[5][0]
+            except Exception:
+                ep['hand'] = None
+            ep['hgroup'] = None
+            ep['hwho'] = None
+        elif kind == 'exc.set':
+            job, obj = rec[4], rec[5]
+            if role == 'results_handler':
+                if ep['hgroup'] != obj:
+                    ep['hgroup'] = obj
+                    ep['hwho'] = None
+                    lst = ep['queued'].get(ep['hand']) or []
+                    if lst:
+                        ep['hwho'] = {'i': lst.pop(0)}
+                        emit('H:%d' % ep['hwho']['i'])
+                if ep['hwho'] is not None:
+                    store(ep['hwho'], job, obj)
+            else:
+                g = ep['cur'].get(role)
+                if g is not None and g['flagged']:
+                    if g['kind'] == 'd':
+                        if not g['all']:
+                            g['all'] = True
+                            emit('A:%d' % g['i'])
+                        store(g['holder'], job, obj)
+                    elif not g['published']:
+                        g['published'] = True
+                        g['obj'] = obj
+                        emit('P:%d' % g['i'])
+                        store(g['holder'], job, obj)
+                    elif g['obj'] == obj:
+                        store(g['holder'], job, obj)
+                elif kind_of(role) == 'd':
+                    # before it writes the slot (if it does: in apply mode it only fails the job) the death handler stores its error
+                    # (the last such store before the write is the one that belongs to the report)
+                    pre = ep['since_look'].setdefault(role, [])
+                    holder = {'i': None}
+                    pre.append((pos, job, obj, holder))
+                    emit(('P', holder))
+                    store(holder, job, obj)
+        elif kind == 'value.get' and rec[4] == 'exception_job_id' and role == 'main':
+            emit('MS', at=ep['main_look'] if ep['main_look'] is not None else pos)
+            emit('MR:%d' % mj(rec[5]))
+        elif kind == 'exc.fetch' and role == 'main':
+            emit(('MX', rec[5]))
+    close(ep)
+    # tokens of parties that never became known (a death handler that only failed an apply job) say 999: they are dropped, together
+    # with nothing else — the model then has no such party either
+    for e in episodes:
+        e['ev'] = [t for t in e['ev'] if not ((t.startswith('P:') or t.startswith('S:')) and t.split(':')[1] == '999')]
+    return episodes
 
 
 def extract_shutdown(trace):
